@@ -468,14 +468,22 @@ impl RdfStore {
                     results.retain(|t| !pending_deletes.contains(t.as_ref()));
                 }
 
-                // Include pending inserts
-                for op in ops {
-                    if let PendingOp::Insert(triple) = op
-                        && pattern.matches(triple)
-                    {
-                        results.push(Arc::new(triple.clone()));
+                // Include pending inserts. The store is a set: a pending insert of a
+                // triple that is already in the result (or was inserted twice) adds nothing.
+                let mut added: Vec<Arc<Triple>> = Vec::new();
+                {
+                    let mut present: FxHashSet<&Triple> =
+                        results.iter().map(|t| t.as_ref()).collect();
+                    for op in ops {
+                        if let PendingOp::Insert(triple) = op
+                            && pattern.matches(triple)
+                            && present.insert(triple)
+                        {
+                            added.push(Arc::new(triple.clone()));
+                        }
                     }
                 }
+                results.extend(added);
             }
         }
 
